@@ -3,6 +3,7 @@ package rt
 import (
 	"bytes"
 	"fmt"
+	"os"
 	"path/filepath"
 	"strconv"
 	"strings"
@@ -293,6 +294,14 @@ func runSeq(prop, tier string, sc *core.Scratch, ev *core.Evidence, rep *core.Re
 	// validate recorded traces with TLC
 	tv, err := validateSeqTraces(sc, ev, rep, prop, recJobs, mod)
 	if err != nil {
+		if violations > 0 {
+			// the replay already produced real-code witnesses; that the recorded traces of the same
+			// mocks could not even be evaluated does not take them back
+			ev.Note("trace_validation_not_completed", err.Error())
+			fmt.Fprintln(os.Stderr, "note: trace validation did not complete:", firstLine(err.Error()))
+			ev.Violations = violations
+			return 1, nil
+		}
 		return 2, err
 	}
 	violations += tv
@@ -319,4 +328,11 @@ func runSeq(prop, tier string, sc *core.Scratch, ev *core.Evidence, rep *core.Re
 
 func getenv(k string) string {
 	return strings.TrimSpace(strings.Join(strings.Fields(envLookup(k)), " "))
+}
+
+func firstLine(s string) string {
+	if i := strings.IndexByte(s, '\n'); i >= 0 {
+		return s[:i]
+	}
+	return s
 }
